@@ -102,7 +102,9 @@ def run(rep, tier, rng):
                        "record numbers, trailing bytes) plus %d files of the exhaustive small scope (every kind x optional-M x "
                        "part structures up to 3 parts x 0..2 points); each read generically and with the typed reader of the "
                        "file's type; plus 6 files whose first record has more than 1024 parts / rings / patches / points; oracle: "
-                       "result == independent Python denotation; non-trivial = distinct case" % (nrand, len(scope)))
+                       "result == independent Python denotation; a sample of the files also placed on disk and read through "
+                       "read_shapes / read_shapes_as / ShapeReader::from_path (with and without .shx, trailing bytes): same "
+                       "answers as from memory; non-trivial = distinct case" % (nrand, len(scope)))
     cases, oracles = [], []
     for m in models:
         shp = refesri.encode_shp(m)
@@ -141,6 +143,24 @@ def run(rep, tier, rng):
     btable = dict((id(c), o) for c, o in zip(bcases, boracles))
     stages.correspondence(rep, "read_big", dev, bcases, "read(more than 1024 parts / patches / points)",
                           oracle=lambda c, r: btable[id(c)](c, r), model=(tier == "thorough"))
+    # ---- the same kind of files on disk, read through the path-based one-liners, without and with an index beside
+    # them (trailing bytes after the declared length included): same answers as from memory
+    import pathio
+    nfail_p = 0
+    for mi, m in enumerate(models[: (60 if tier == "thorough" else 24)]):
+        shp = refesri.encode_shp(m)
+        if mi % 3 == 0 and not m.get("trailing"):
+            shp += bytes(rng.getrandbits(8) for _ in range(rng.randint(1, 40)))
+        shx = refesri.encode_shx(m) if mi % 2 else None
+        req = m["type"] if m["type"] != 0 else -1
+        msg = pathio.check(rep, dev, "c03", "r%d" % mi, shp, shx, req,
+                           "conformant file on disk (%s index%s)" % ("with" if shx else "without", ", trailing bytes" if len(shp) > 100 + sum(len(refesri.encode_record(r["num"], r["shape"])) for r in m["records"]) else ""))
+        if msg:
+            nfail_p += 1
+            if nfail_p == 1:
+                rep.violation({"kind": "oracle", "what": msg, "case_kind": "path", "shp_hex": shp.hex()[:600]})
+    pathio.cleanup("c03")
+    rep.cov["files_read_by_path"] = (60 if tier == "thorough" else 24)
     rep.assumptions += ["the Coq transcription of the whitepaper (Spec/Esri.v) is trusted; it is cross-checked by the fact that "
                         "model reader, real reader and the Python denotation agree on files produced by the independent Python encoder",
                         "polygon ring roles: IEEE double shoelace sign (Flocq in the model, CPython floats in the oracle)"]
